@@ -25,8 +25,25 @@ def grammars(seed, n):
     return out
 
 
+def is_history_replay(replay):
+    if not replay:
+        return False
+    with open(replay) as f:
+        return "history" in json.load(f)
+
+
+def incremental(res, pid, tier, replay=None):
+    """the module a build leaves in place over a used output directory is the one of a clean build
+    (shared with C18: lib/p_ct.py, TraceCT.tla, deviations tagged with this property)"""
+    from . import p_ct
+    p_ct.run(res, pid, tier, replay)
+
+
 def c14(pid, tier, replay):
     res = core.Result(pid, "exploration", tier)
+    if is_history_replay(replay):
+        incremental(res, pid, tier, replay)
+        return res.finish()
     seed = core.seed()
     if replay:
         with open(replay) as f:
@@ -84,12 +101,20 @@ def c14(pid, tier, replay):
     for i in insts[:2]:
         res.sample(dict(id=i["id"], y=i["y"]))
     res.assumptions += ["wincode itself is trusted; what is checked is that nothing observable is lost or altered by the derive'd schemas and the reconstitution path"]
+    if not replay:
+        # "as every generated parser does at start-up": compiled generated parsers, both formats
+        from . import p_ctrt
+        p_ctrt.startup(res, pid, seed, tier == "thorough")
+        incremental(res, pid, tier)
     return res.finish()
 
 
 def c15(pid, tier, replay):
     from . import p_ct, p_ctrt
     res = core.Result(pid, "model_checking", tier)
+    if is_history_replay(replay):
+        incremental(res, pid, tier, replay)
+        return res.finish()
     seed = core.seed()
     thorough = tier == "thorough"
     core.build_harness()
@@ -255,6 +280,8 @@ def c15(pid, tier, replay):
         res.sample(dict(id=i["id"], y=i["y"], kind=i["kind"]))
     res.assumptions += ["thread schedules are sampled on the real code (exhaustive only in OnceInit.tla); std::sync::OnceLock is trusted",
                         "hash seeds: each process gets fresh RandomState keys from the OS"]
+    if not replay:
+        incremental(res, pid, tier)
     return res.finish()
 
 
